@@ -716,6 +716,14 @@ def simple_assigns(v, stmts=None):
     for st in (stmts if stmts is not None else v.stmts()):
         if isinstance(st, ast.Assign) and len(st.targets) == 1 and isinstance(st.targets[0], ast.Name):
             out.append((st, st.targets[0].id, v.term(st.value, at=st)))
+        elif isinstance(st, ast.Assign) and len(st.targets) == 1 and isinstance(st.targets[0], (ast.Tuple, ast.List)) and \
+                all(isinstance(e, ast.Name) for e in st.targets[0].elts):
+            # `a, b = value`: each name with the element it receives
+            for e in st.targets[0].elts:
+                try:
+                    out.append((st, e.id, v.ev._def_term(e.id, v.cfg.node(st), None)))
+                except AnalysisError:
+                    pass
     return out
 
 
